@@ -1148,7 +1148,7 @@ def run_impl(case):
     for st in _steps(case, ts):
         o = _impl_obs(st, case, ts)
         obs.append(o)
-        if st[0] in ("vcmp", "vsort") and not o.endswith(" -"):
+        if st[0] in ("vcmp", "vsort", "msort") and not o.endswith(" -"):
             stats[st[0] + "_compared_with_model"] = stats.get(st[0] + "_compared_with_model", 0) + 1
             if st[0] == "vcmp" and ts[st[1]].value is not None and ts[st[2]].value is not None \
                     and not (isinstance(ts[st[1]].value, str) and isinstance(ts[st[2]].value, str)):
@@ -1217,6 +1217,7 @@ def _steps(case, ts):
         for j in lits:
             st.append(("vcmp", i, j))
     st.append(("vsort", [i for i in case["p1"] if i in live and isinstance(ts[i], Literal)]))
+    st.append(("msort", [i for i in case["p1"] if i in live]))     # the whole mixed list, literals with their values
     return st
 
 
@@ -1398,7 +1399,19 @@ def _impl_obs(st, case, ts):
         if not _vsort_modelled(l):
             return "vsort -"
         return "vsort " + " ; ".join(enc(x) for x in sorted(l))
+    if kind == "msort":
+        l = [ts[i] for i in st[1]]
+        if not _msort_modelled(l):
+            return "msort -"
+        return "msort " + " ; ".join(enc(x) for x in sorted(l))
     raise AssertionError(kind)
+
+
+def _msort_modelled(l):
+    """a mixed list with at least one literal and one other term whose literals `<` orders as a strict weak order"""
+    lits = [x for x in l if isinstance(x, Literal)]
+    return 0 < len(lits) < len(l) and not rdflib.DAWG_LITERAL_COLLATION and all(_carried(x) for x in lits) \
+        and all(_scalar(str(x)) for x in l) and _weak_order(lits)
 
 
 def _vcmp_modelled(a, b):
@@ -1465,6 +1478,10 @@ def model_lines(case):
         elif kind == "vsort":
             l = [ts[i] for i in st[1]]
             lines.append("vsort " + " ".join(_venc(x) for x in l) if _vsort_modelled(l) else "skip")
+        elif kind == "msort":
+            l = [ts[i] for i in st[1]]
+            lines.append("msort " + " ".join("W " + _venc(x) if isinstance(x, Literal) else enc(x) for x in l)
+                         if _msort_modelled(l) else "skip")
     return lines
 
 
@@ -1517,6 +1534,8 @@ def select_model_obs(case, out):
             res.append("vcmp " + ("-" if o == "bad-op" and not _vcmp_modelled(ts[st[1]], ts[st[2]]) else o))
         elif kind == "vsort":
             res.append("vsort " + ("-" if o == "bad-op" and not _vsort_modelled([ts[i] for i in st[1]]) else o))
+        elif kind == "msort":
+            res.append("msort " + ("-" if o == "bad-op" and not _msort_modelled([ts[i] for i in st[1]]) else o))
     return res
 
 
@@ -1576,7 +1595,13 @@ def _by_value(a, b):
     if a.value is None or b.value is None:
         return False
     if a.datatype in T._NUMERIC_LITERAL_TYPES and b.datatype in T._NUMERIC_LITERAL_TYPES:
-        return not a.ill_typed and not b.ill_typed    # the numeric fast path; an ill-typed one goes by datatype IRI
+        if a.ill_typed or b.ill_typed:
+            return False                                  # an ill-typed one goes by datatype IRI
+        try:                                              # the numeric fast path — unless the values have no order
+            a.value > b.value                             # (a value whose Python type does not fit the datatype: F13's route),
+            return True                                   # then the pair goes by datatype IRI as well
+        except TypeError:
+            return False
     da = str(a.datatype) if a.datatype is not None else XSD + "string"
     db = str(b.datatype) if b.datatype is not None else XSD + "string"
     return da == db and (a.language or "").lower() == (b.language or "").lower()
